@@ -54,6 +54,9 @@ def source_plain(r, n):
 AUX = ('<?xml version="1.0"?>\n<aux><item id="q1" k="x" n="9">aux-one</item><item id="q2" k="y" n="8">aux-two</item>'
        '<item id="q3" k="x" n="7">aux-three</item></aux>\n')
 
+# no DTD, no attributes, no namespaces: every lookup structure of the parsed source stays in its never-used state
+BARE = '<?xml version="1.0"?>\n<doc><sec><item>one</item><item>2</item></sec><sec><item>3.5</item></sec></doc>\n'
+
 IMPORTED = ('<xsl:stylesheet version="1.0" %s>\n'
             '<xsl:key name="ik" match="item" use="@k"/>\n'
             '<xsl:decimal-format name="imp" decimal-separator="," grouping-separator="."/>\n'
@@ -116,6 +119,11 @@ def snippets(r):
     S["applyimports"] = ('<xsl:template match="x:e" mode="ai" xmlns:x="urn:x"><hi><xsl:apply-imports/></hi></xsl:template>',
                          '<ai><xsl:apply-templates select="//x:e[1]" mode="ai" xmlns:x="urn:x"/></ai>')
     S["outputcdata"] = ('<xsl:output cdata-section-elements="cd"/>', '<cd>a &lt; b ]]&gt; c <xsl:value-of select="//item[1]/@k"/></cd>')
+    # facilities USED but not DECLARED: the lookup tables of the compiled stylesheet are met empty
+    S["keynokey"] = ('', '<nk><xsl:value-of select="count(key(\'nosuchkey\',\'x\'))"/></nk>')
+    S["formatnoname"] = ('', '<fn><xsl:value-of select="format-number(1234.5,\'#,##0.0\',\'nosuchformat\')"/></fn>')
+    S["attrsetnoset"] = ('', '<ns><xsl:element name="e" use-attribute-sets="nosuchset"/></ns>')
+    S["nomode"] = ('', '<nm><xsl:apply-templates select="//item" mode="nosuchmode"/></nm>')
     S["error"] = ('', '<err><xsl:if test="count(//item) &gt; 0"><xsl:message terminate="yes">stop here</xsl:message></xsl:if></err>')
     return S
 
@@ -140,14 +148,18 @@ def stylesheet(r, names):
 
 
 FACILITIES = ["keys", "keydoc", "number", "numberfrom", "document", "format", "formatnodecl", "sort", "id", "vars", "import",
-              "attrsets", "message", "misc", "exslt", "copyof", "missingdoc", "applyimports", "outputcdata"]
+              "attrsets", "message", "misc", "exslt", "copyof", "missingdoc", "applyimports", "outputcdata", "nomode"]
+
+
+# these end the transformation with a reported error (the error path and its message are compared too)
+ERROR_FACILITIES = ["error", "keynokey", "formatnoname", "attrsetnoset"]
 
 
 def pick_facilities(r):
     k = r.weighted([(1, 3), (2, 3), (3, 2), (5, 1)])
     names = r.shuffle(FACILITIES)[:k]
     if r.chance(1, 12):
-        names.append("error")
+        names.append(r.choice(ERROR_FACILITIES))
     return names
 
 
